@@ -272,7 +272,11 @@ func suiteConfig(r *rng, n int) {
 					}
 				}
 			}
-			server.Reset(nil)
+			// every other accepted configuration is applied to the servers still RUNNING with the previous one
+			// (update in place, as a live reload does); the others start from no servers
+			if i%2 == 0 {
+				server.Reset(nil)
+			}
 			// Write -> Read
 			cp := *c
 			if err := config.Write(&cp); err != nil {
